@@ -459,8 +459,9 @@ def run_c13(ctx):
         raise vlib.InfraError("ArpHuntMC probe config: model-level failure violated=%s\n%s" % (r.violated, r.out[-2500:]))
     states, trans = states + r.distinct, trans + r.generated
     if not quick:
-        # three loop instances (Start/Stop/Start leaves two loops for one MAC, plus a third target), one class of received packet
-        r = model_check(ctx, fam, base, "full_byMac_loops3", True, all_invs, 2400, MaxLoops=3, RecvOps="{1}", RecvSI="{a1}", RecvTI="{routerip}", NarrowES="TRUE")
+        # three loop instances (Start/Stop/Start leaves two loops for one MAC, plus a third target); received packets are
+        # covered by the 2-loop graphs (with them this graph has 18 M states and takes 20 min)
+        r = model_check(ctx, fam, base, "full_byMac_loops3", True, all_invs, 2400, MaxLoops=3, RecvOps="{}", NarrowES="TRUE")
         if not r.ok:
             raise vlib.InfraError("ArpHuntMC (ByMac, 3 loops): model-level failure violated=%s error=%s\n%s" % (r.violated, r.error, r.out[-2500:]))
         states, trans = states + r.distinct, trans + r.generated
